@@ -10,7 +10,7 @@ use crate::driver::{expected_obs, group_by_name, observe_response, RespObs};
 use crate::engine::{guarded, hex, show, unhex, Report, Tier, Violation};
 use crate::refmodel::head;
 
-pub const RULE: &str = "response heads (C05 grammar) and request heads (method {GET,POST,OPTIONS,M-SEARCH} x target {/,/a?b=c,*,http://a.test/x} x version {1.0,1.1}) with f fields for every f in 0..=N+2 (N=128: f in {0,1,2,126..=130}) for each limit N in {0,1,4,128} (four monomorphic instances of each const-generic parser); all ordered field lists up to length 2 (thorough 3) over the 9-entry pool, rotations of the pool beyond; EVERY prefix length of every head and the complete head followed by {1 byte, garbage, a second message}; parsers try_parse_response, try_parse_partial_response, try_parse_request. distinct = distinct (head, limit, parser) triples";
+pub const RULE: &str = "response heads (C05 grammar) and request heads (method {GET,POST,OPTIONS,M-SEARCH} x target {/,/a?b=c,*,http://a.test/x} x version {1.0,1.1}, plus authority-form, urn: absolute-form and a 70000-byte path) with f fields for every f in 0..=N+2 (N=128: f in {0,1,2,126..=130}) for each limit N in {0,1,4,128} (four monomorphic instances of each const-generic parser); all ordered field lists up to length 2 (thorough 3) over the 9-entry pool, rotations of the pool beyond; EVERY prefix length of every head and the complete head followed by {1 byte, garbage, a second message}; parsers try_parse_response, try_parse_partial_response, try_parse_request. distinct = distinct (head, limit, parser) triples";
 
 const LIMITS: [usize; 4] = [0, 1, 4, 128];
 
@@ -207,6 +207,12 @@ pub fn run(tier: Tier) -> Report {
             for t in ["/", "/a?b=c", "*", "http://a.test/x"] {
                 starts.push(("request", format!("{} {} HTTP/{}", m, t, v).into_bytes()));
             }
+        }
+        // other well-formed request targets: authority-form, absolute-form without authority, a very long path
+        starts.push(("request", format!("CONNECT a.test:443 HTTP/{}", v).into_bytes()));
+        starts.push(("request", format!("GET urn:example:animal:ferret HTTP/{}", v).into_bytes()));
+        if v == "1.1" {
+            starts.push(("request", format!("GET /{} HTTP/1.1", "p".repeat(70_000)).into_bytes()));
         }
     }
     let mut jobs: Vec<(&str, usize, Vec<u8>, usize)> = Vec::new();
